@@ -8,7 +8,7 @@ READY = True
 CLAIMS = {
  "C18": dict(technique="TLC model checking of Readers.tla (query vs two-step variable-length write) + TLC behaviours forced on real writer/reader goroutines with a gate between data and index write + free-running writers/readers/background loop under the Go race detector",
              text="Readers.tla is model-checked (pure: every query is error-free and read-committed; with the listed in-place continuation the corrupt read is produced); its behaviours are executed by real goroutines: each write request is its own goroutine parked by the gate player between the data write and the index write of WriteBufferToFileIndirect while queries run through the real query path; every query must be error-free and return only rows of completed writes. In addition a free-running execution (several writers on fixed and variable buckets, readers, SyncWAL at millisecond periods, rotation, shutdown) is run with a -race build; every race report, panic or query error is judged (listed races by their pair of functions).",
-             note="Forced schedules cover the data/index window of the variable-length write; other interleavings come from one race-detector execution per run (more in the thorough tier)."),
+             note="Forced schedules cover the data/index window of the variable-length write and the window between queueing a write command and asking for its flush (another request's flush takes the command: whatever is flushed must be the complete command); other interleavings come from two race-detector executions per run (writers of 1..1500-row requests, readers and the loop at 1 ms with a completeness check of every acknowledged request; a writer that opens a new year file with every request while four readers query that bucket). The whole stderr of those runs is parsed for race reports; three races of the unchanged tree are listed as known findings by exact signature."),
 }
 
 import calendar, json, os, random, re, shutil
